@@ -50,7 +50,8 @@ def main(argv: List[str]) -> int:
     for seed, doc in ds:
         plan = docs.form_plan(nrand, False, seed) + [(None, {'comment_style': 'block'}), (None, {'comment_place': 'trailing'}),
                                                        (None, {'comment_place': 'trailing', 'comment_style': 'block'}), (None, {'comment_place': 'both'}),
-                                                       (None, {'comment_place': 'both', 'comment_style': 'block'})]
+                                                       (None, {'comment_place': 'both', 'comment_style': 'block'}), (None, {'comment_place': 'both_empty'}),
+                                                       (None, {'comment_place': 'both_empty', 'comment_style': 'block'})]
         for fseed, pinned in plan:
             tid += 1
             items[tid] = {'tid': tid, 'doc': doc, 'allow': tid % 3 == 0, 'want': 'model', 'fseed': fseed, 'pinned': pinned,
